@@ -168,7 +168,9 @@ class NumpyBackendProvider(BackendProvider):
             method = {'+': 'np.add.reduce', '*': 'np.multiply.reduce', '|': 'np.maximum.reduce', '&': 'np.minimum.reduce'}.get(op)
             if method is None:
                 return None
-            return f'{method}({arg_src})'
+            # initial=None: no identity element, so an empty operand raises and the
+            # interpreter answers (+/[] is [], not 0.0).
+            return f'{method}({arg_src}, initial=None)'
 
         if node_type == 'scan':
             op, arg = ir[1], ir[2]
